@@ -524,7 +524,7 @@ def _worker_run(c: dict) -> dict:
                 "msg": f"{type(e).__name__}: {e}"[:300]}
 
 
-def run_cases_parallel(cases: List[dict], workers: int = 8, per_case_timeout: int = 180) -> List[dict]:
+def run_cases_parallel(cases: List[dict], workers: int = common.NCPU, per_case_timeout: int = 180) -> List[dict]:
     """runs the cases in spawned worker processes (each with its own engine + parser front end); order preserved"""
     import multiprocessing as mp
     from concurrent.futures import ProcessPoolExecutor, TimeoutError as FTimeout
